@@ -314,6 +314,117 @@ def run(chk):
         oke = oke and bool(alts) and all(share(under(a_, alt), 5, 59, remaining) for alt in alts)
     chk.ob("R3 constants agree", "R3|receiver-payload-shares", oki and oke, where(hp), "a new message takes the first min(declared length, 57) bytes of packet[7..]: %s ; a continuation appends the first min(remaining, 59) bytes of packet[5..]: %s" % (oki, oke))
 
+    # ---------------- R7: delivery point of the initialisation arm, for every declared length
+    # A message whose declared length fits the initialisation packet (<= 57) is returned by that very call; a longer one is
+    # parked under its channel (and the sender accepts lengths up to 7608, so all of those must be parked, not dropped).
+    # The declared length is a u16: the site conditions of "return Some(message of this packet)" and of the table insert
+    # are evaluated for each of the 65536 values on a full 64-byte packet (term interpreter of rules/monotone.py; nothing of
+    # the repository runs).  Conditions that do not mention the declared length are about other bytes of the packet and are
+    # left free.
+    from . import monotone
+    LSYM = ("sym", "declared_length")
+
+    def over_len(t, d=0):
+        """the term with the declared length and lengths of packet shares spelled over LSYM"""
+        if not isinstance(t, tuple) or d > 60:
+            return t
+        if bdec(t) == ("be", (PKT, 5, 7)):
+            return LSYM
+        if len(t) == 4 and t[0] == "call" and t[2] and (t[1].endswith("::len") or names.is_(t[1], "Vec::len") or names.is_(t[1], "slice::len")):
+            pv = bytesview.prefix_view(t[2][0])
+            if pv is None:
+                x_ = t[2][0]
+                while is_call(x_, "slice::to_vec") or is_call(x_, "ToOwned::to_owned") or is_call(x_, "Vec::from") or is_call(x_, "Into::into") or is_call(x_, "From::from") or is_call(x_, "Deref::deref") or is_call(x_, "Clone::clone"):
+                    x_ = x_[2][0]
+                pv = bytesview.prefix_view(x_)
+            if pv is not None and pv[0][0] == PKT:
+                return over_len(N.norm(pv[1]), d + 1)
+            cv = bytesview.closed_view(t[2][0])
+            if cv[0] == PKT:
+                return ("const", (64 if cv[2] is None else cv[2]) - cv[1])
+        if len(t) == 3 and t[0] == "unop" and t[1] == "PtrMetadata":
+            return over_len(("call", "core::slice::<impl [T]>::len", (t[2],), 0), d + 1)
+        return tuple(over_len(x, d + 1) if isinstance(x, tuple) else x for x in t)
+
+    undecided = []
+
+    def prepared(alts):
+        out = []
+        for alt in alts:
+            cs_ = []
+            dead = False
+            for sb_, l_, c_ in alt:
+                flat = normal.norm_cond(under(c_, alt), l_)
+                if flat is None:
+                    dead = True
+                    break
+                for t3, l3 in flat:
+                    # `packet_share.get(..n)` is present exactly when n bytes are there (a full 64-byte packet)
+                    pt = flow.presence_test(t3, l3)
+                    if pt is not None and pt[1] is not None and isinstance(pt[0], tuple) and len(pt[0]) == 4 and pt[0][0] == "call" and names.is_(pt[0][1], "slice::get") and len(pt[0][2]) == 2:
+                        base_, rng_ = pt[0][2]
+                        cv_ = bytesview.closed_view(base_)
+                        if cv_[0] == PKT and isinstance(rng_, tuple) and len(rng_) == 4 and rng_[0] == "agg":
+                            avail_ = (64 if cv_[2] is None else cv_[2]) - cv_[1]
+                            d_ = dict(rng_[3])
+                            kind_ = str(rng_[1]).rsplit("::", 1)[-1]
+                            end_ = d_.get("end") if kind_ in ("RangeTo", "Range") else None
+                            if end_ is not None:
+                                t3, l3 = ("binop", "Le", end_, ("const", avail_)), (("notin", "0") if pt[1] else ("in", "0"))
+                    c2 = over_len(t3)
+                    if flow.term_contains(c2, lambda y: y == LSYM):
+                        cs_.append((sb_, l3, c2))
+            if not dead:
+                out.append(cs_)
+        return out
+
+    def holds_for(alts, n):
+        """does some alternative of the (prepared) site condition hold for declared length n? None = a condition could not be evaluated"""
+        for alt in alts:
+            ok_ = True
+            for sb_, l_, c2 in alt:
+                try:
+                    if not monotone.cond_holds(c2, l_, LSYM, n):
+                        ok_ = False
+                        break
+                except monotone.NotMonotone as e_:
+                    undecided.append("%s %s" % (flow.term_str(c2)[:300], l_))
+                    return None
+            if ok_:
+                return True
+        return False
+    ret_sites = []
+    for s_ in flow.outcome_sites(HP):
+        if s_["path"] != () or s_["kind"] != "Some":
+            continue
+        v_ = N.norm(Tv._rvalue(s_["rv"], s_["bb"], s_["idx"], 0)) if s_.get("idx") is not None else N.norm(Tv._call(s_["term"], s_["bb"], 0))
+        in_ = dict(v_[3]).get("0") if isinstance(v_, tuple) and len(v_) == 4 and v_[0] == "agg" and v_[2] == "Some" else None
+        if isinstance(in_, tuple) and len(in_) == 4 and in_[0] == "agg" and in_[1].endswith("::Message"):
+            ret_sites.append(s_["bb"])
+    ins_sites = [bb for bb, t in HP.calls() if "HashMap" in (t.get("callee") or "") and (t.get("callee") or "").rsplit("::", 1)[-1] in ("insert", "entry")]
+    if chk.require("R7 delivery point", "R7|sites", len(ret_sites) >= 1 and len(ins_sites) >= 1, where(hp), "returned-message sites: %d, insert sites: %d" % (len(ret_sites), len(ins_sites))):
+        # (path by path: a guard inside a parser helper is a condition of the paths that run through it)
+        ret_alts = prepared([a_ for bb in ret_sites for a_ in (normal.path_conditions(N, p, HP, bb, indexed=True) or [])])
+        ins_alts = prepared([a_ for bb in ins_sites for a_ in (normal.path_conditions(N, p, HP, bb, indexed=True) or [])])
+        bad_d = bad_p = und = None
+        for n_ in range(0, 65536):
+            d_, p_ = holds_for(ret_alts, n_), holds_for(ins_alts, n_)
+            if d_ is None or p_ is None:
+                und = n_
+                break
+            if d_ != (n_ <= 57) and bad_d is None:
+                bad_d = (n_, d_)
+            if n_ <= PROTO_MAX - 1 and p_ != (n_ > 57) and bad_p is None:
+                bad_p = (n_, p_)
+        chk.ob("R7 delivery point", "R7|init-packet|delivered-iff-it-holds-the-whole-payload", und is None and bad_d is None, where(hp, ret_sites[0]),
+               ("a site condition could not be evaluated (declared length %s): %s" % (und, undecided[:1])) if und is not None else
+               ("declared length %d: the message is %s by the call that handles its initialisation packet (a payload of up to 57 bytes is complete with that packet, a longer one is not)" % (bad_d[0], "returned" if bad_d[1] else "not returned")) if bad_d else
+               "for each of the 65536 declared lengths: returned by the initialisation call exactly when the length is <= 57")
+        chk.ob("R7 delivery point", "R7|init-packet|longer-messages-parked", und is None and bad_p is None, where(hp, ins_sites[0]),
+               ("a site condition could not be evaluated (declared length %s)" % und) if und is not None else
+               ("declared length %d (the sender accepts up to %d): the message is %s" % (bad_p[0], PROTO_MAX - 1, "parked" if bad_p[1] else "neither returned nor parked — its continuation packets will find no message in progress")) if bad_p else
+               "for each declared length in 58..=%d: parked under the packet's channel" % (PROTO_MAX - 1))
+
     # ---------------- R4
     Tt = flow.Terms(p, tpk)
     # the sequence number of a continuation header is the enumeration index of the chunk it carries — whether the chunks are
@@ -525,4 +636,5 @@ def run(chk):
     chk.floor("R4", 5)
     chk.floor("R5", 2)
     chk.floor("R6", 2)
+    chk.floor("R7", 2)
     chk.assumptions = ["HashMap operations on different keys commute", "std::io::Write::write of a 64-byte buffer is one report"]
